@@ -154,6 +154,10 @@ static int mode_c13(int tier, bool exceptions) {
         std::string nm; masa_get_name<double>(&nm);
         std::string after = list_obs();
         bool listed = after.find(handle + " : " + r) != std::string::npos;
+        if (!threw && s != r) {  // decorated spelling accepted: the handle just used must not have become a spelling of anything
+          bool threw2 = false; int code2 = 0; try { capture([&] { masa_init<double>("zz-after", handle); }); } catch (int e) { threw2 = true; code2 = e; } catch (...) { threw2 = true; code2 = -999; } n_trans++; n_valid++;
+          if (!catset.count(ref_normal(handle)) && (!threw2 || code2 != 1)) viol("C13", "after masa_init(\"" + handle + "\",\"" + s + "\"), masa_init(\"zz-after\",\"" + handle + "\") is accepted although \"" + handle + "\" is not a catalogue name", "\"input\":\"" + jesc(handle) + "\",\"after\":\"" + jesc(s) + "\",\"level\":\"masa_init\",\"kind\":\"handle-as-name\"");
+        }
         if (threw || nm != r || !listed)
           viol("C13", "masa_init(\"" + handle + "\",\"" + s + "\") should select " + r + (threw ? " but failed" : (" but selected " + nm)), "\"input\":\"" + jesc(s) + "\",\"handle\":\"" + jesc(handle) + "\",\"ref\":\"" + jesc(r) + "\",\"lib\":\"" + jesc(nm) + "\",\"threw\":" + (threw ? "true" : "false") + ",\"level\":\"masa_init\"");
       } else {
@@ -200,7 +204,7 @@ static int mode_c15(const Caps& D, const Caps& P, int tier) {
   // documented set can no longer be the fail-safe stub for every parameter assignment, whatever it returns at the defaults
   for (auto& sol : D.order) if (P.D.count(sol)) for (auto& key : D.D.at(sol)) if (!P.D.at(sol).count(key)) { n_valid++;
     viol("C15", sol + ": the library overrides masa_eval_" + key + " although it is outside the documented capability set of this solution (the -1.33 contract cannot hold for all parameters)", "\"solution\":\"" + sol + "\",\"evaluator\":\"" + key + "\",\"kind\":\"undocumented-override\""); }
-  for (int ctx = 0; ctx < 5; ctx++) for (auto& sol : D.order) {
+  for (int ctx = 0; ctx < 7; ctx++) for (auto& sol : D.order) {
     fflush(OUT);
     pid_t pid = fork();
     if (pid == 0) {
@@ -208,6 +212,8 @@ static int mode_c15(const Caps& D, const Caps& P, int tier) {
       // many evaluators is re-initialised between two selections of s; 2 the 4-d solution registered first, selection moved away and back
       capture([&] { auto ctx_run = [&](auto tag) { typedef decltype(tag) S;
         if (ctx == 0) masa_init<S>("s", sol);
+        // 5, 6: the instance was purged (and re-initialised with init_param) before the sweep
+        else if (ctx == 5 || ctx == 6) { masa_init<S>("s", sol); masa_purge_default_param<S>(); if (ctx == 6 && sol != "masa_test_function") masa_init_param<S>(); }
         else if (ctx == 1 || ctx == 4) { masa_init<S>("s", sol); masa_init<S>("y", "heateq_1d_steady_const"); masa_select_mms<S>("s"); masa_init<S>("y", "euler_3d"); masa_select_mms<S>("s"); }
         else if (ctx == 2) { masa_init<S>("y", "navierstokes_4d_compressible_powerlaw"); masa_init<S>("s", sol); masa_select_mms<S>("y"); masa_select_mms<S>("s"); }
         // 3: another instance went through its own diagnostics first (a vector-owning solution with an emptied vector: sanity_check reports it)
